@@ -739,8 +739,29 @@ Proof. intros. reflexivity. Qed.
 
 Lemma synthetic_collide_zero : forall seg1 seg2 zone row m1 m2,
   seg1 <> seg2 -> row_id seg1 zone row m1 0 = row_id seg2 zone row m2 0.
-Proof. intros. unfold row_id. rewrite !orb_true_r. reflexivity. Qed.
+Proof. intros. unfold row_id, synthetic_row. rewrite !orb_true_r. reflexivity. Qed.
 
 (** A stored non-zero id is returned unchanged when the column is present. *)
 Lemma row_id_real : forall seg zone row st, st <> 0 -> row_id seg zone row false st = st.
-Proof. intros seg zone row st H. unfold row_id. destruct (N.eqb_spec st 0); [contradiction|reflexivity]. Qed.
+Proof.
+  intros seg zone row st H. unfold row_id, synthetic_row.
+  destruct (N.eqb_spec st 0); [contradiction|reflexivity].
+Qed.
+
+(** Outside the known class [synthetic_row] a row carries its stored id, so rows that store
+    different ids are never merged. *)
+Lemma row_ids_outside_known : forall seg1 z1 r1 m1 st1 seg2 z2 r2 m2 st2,
+  synthetic_row m1 st1 = false -> synthetic_row m2 st2 = false ->
+  row_id seg1 z1 r1 m1 st1 = st1 /\ row_id seg2 z2 r2 m2 st2 = st2 /\
+  (st1 <> st2 -> row_id seg1 z1 r1 m1 st1 <> row_id seg2 z2 r2 m2 st2).
+Proof.
+  intros seg1 z1 r1 m1 st1 seg2 z2 r2 m2 st2 H1 H2. unfold row_id. rewrite H1, H2.
+  repeat split; auto.
+Qed.
+
+(** A synthetic id can also equal a real id: the two live in the same 64-bit space. *)
+Lemma synthetic_meets_real : exists zone row m sh s,
+  in_window m = true /\ synthetic_id zone row = pack m sh s.
+Proof.
+  exists 42, 0, (id_epoch_ms + 43008), 0, 0. split; vm_compute; reflexivity.
+Qed.
